@@ -357,6 +357,7 @@ def abstract_model(case):
         M['via'] = 'direct'          # organize_phases only builds the omkm classes
     M['ctor'] = 'from_string' if (case.get('ctor') == 'from_string' and not rich
                                   and all(b['name'] for b in beps)) else 'init'
+    M['move'] = case.get('move', '')
     M['empty_lists'] = bool(case.get('empty_lists'))
     M['omit'] = case.get('omit', '')
     return M
@@ -379,6 +380,51 @@ def _mk_species(sp, phase_attr):
             segs = segs[::-1]
         return Nasa9(nasas=segs, **kw)
     return Shomate(T_low=sp['T_low'], T_high=sp['T_high'], a=np.array(sp['a']), **kw)
+
+
+MOVES = [h + o for h in ('remove', 'pop', 'popneg', 'clear') for o in ('_add_first', '_remove_first')]
+
+
+def _move_species(M, phases, by_name):
+    """Before anything is written, species that reactions depend on (the gas species of the first
+    adsorption, the site species of the first interface) make a detour through ANOTHER coexisting phase
+    object and are moved back to their own phase: add-to-new-then-remove-from-old or remove-then-add, by
+    remove / pop (index >= 0 or < 0) / clear.  Afterwards every phase lists what the model says."""
+    how, order = M['move'].split('_', 1)
+    names = []
+    ads = [rx for rx in M['reactions'] if rx['ads']]
+    if ads:
+        names.append([n for _, n in ads[0]['lhs'] if not n.endswith(')')][0])
+    sites = [s['name'] for s in M['species'] if s['phase'] in [p['name'] for p in M['phases'] if p['kind'] == 'iface']]
+    if sites:
+        names.append(sites[0])
+    if not names:
+        names.append(M['species'][0]['name'])
+    for name in names:
+        X = by_name[name]
+        home = next(p for p in phases if name in p.species_names)
+        other = next(p for p in phases if p is not home)
+        home.remove_species(name)
+        other.append_species(X)                              # X now lives in `other`
+
+        def take_out():
+            i = other.species_names.index(name)
+            if how == 'remove':
+                other.remove_species(name)
+            elif how == 'pop':
+                other.pop_species(i)
+            elif how == 'popneg':
+                other.pop_species(i - len(other.species_names))
+            else:
+                rest = [sp for sp in other.copy_species() if sp.name != name]
+                other.clear_species()
+                other.extend_species(rest)
+        if order == 'add_first':
+            home.append_species(X)
+            take_out()
+        else:
+            take_out()
+            home.append_species(X)
 
 
 def build(M):
@@ -478,6 +524,8 @@ def build(M):
                 ph.reactions = rs or None
                 its = [i for i, ii in zip(inter, M['interactions']) if ii['name_i'] in mine]
                 ph.interactions = its or None
+    if M['move'] and len(phases) >= 2:
+        _move_species(M, phases, by_name)
     import pmutt.cantera.units as cunits
     ukw = {k: M['units'][k] for k in M['units_given']}
     units = {'absent': lambda: None, 'obj': lambda: Units(**ukw), 'cobj': lambda: cunits.Units(**ukw),
@@ -1299,6 +1347,8 @@ def generate(ctx, rnd):
             c.update(bulk=True, empty_bulk=True)
         if k % 5 == 4:
             c['ctor'] = 'from_string'
+        if k % 6 == 4:
+            c['move'] = MOVES[(k // 6 + ctx.seed) % 8]
         if k % 6 == 2:
             c['both'] = 'yaml_cti'
         if k % 6 == 5:
@@ -1384,6 +1434,8 @@ def coverage_counters(cases):
         hit('reaction_Ea_given', any(rx['Ea'] is not None for rx in M['reactions']))
         hit('reaction_Ea_zero', any(rx['Ea'] == 0.0 for rx in M['reactions']))
         hit('rich_species_names', c.get('names') == 'rich')
+        for mv in MOVES:
+            hit('species_moved_' + mv, M['move'] == mv and len(M['phases']) >= 2)
     for k, vals in UNIT_VALUES.items():
         cnt['unit_values_%s_seen' % k] = len(seen_units[k])
         cnt['unit_values_%s_all' % k] = int(seen_units[k] >= set(vals))
